@@ -269,6 +269,13 @@ def run_session(session, path, seam, ctx, prop):
         # numbers as numpy scalars (what records taken from arrays look like)
         recs = [type(r)([np.int64(r[0]), r[1], r[2], np.int64(r[3])] + [np.float64(x) for x in r[4:]]) for r in recs]
         ctx.probe("numpy_scalars_in_records")
+    if len(session["records"]) % 5 == 2 and not session.get("fmt") and all(r[0] <= 99999 and r[3] <= 99999 for r in session["records"]):
+        # the writer also takes pre-formatted fixed-width lines (default position format)
+        def fmt_line(r):
+            l = "%5d%-5s%5s%5d" % (r[0], r[1], r[2], r[3]) + "".join("%8.3f" % x for x in r[4:7])
+            return l + "".join("%8.4f" % x for x in r[7:10])
+        recs = [fmt_line(r) for r in session["records"]]
+        ctx.probe("records_as_formatted_strings")
     if session.get("chunks") and sum(c[0] for c in session["chunks"]) == len(recs):
         pos = 0
         for size, how in session["chunks"]:
